@@ -156,8 +156,10 @@ class Duck:
     being reported as a violation of the property -- a refactoring that merely calls another str method
     on a value must not raise an alarm"""
     def __getattr__(self, name):
-        if name.startswith('_'):
-            raise AttributeError(name)       # private / dunder lookups (getattr with a default, protocol probes) behave normally
+        if name.startswith('_') or name in object.__getattribute__(self, '__dict__').get('_absent_', ()):
+            # private / dunder lookups (getattr with a default, protocol probes) behave normally; so do attributes
+            # the real constructor deliberately leaves unset (declared by the harness: Table.header)
+            raise AttributeError(name)
         if not CONCRETE:
             try:
                 from crosshair.util import IgnoreAttempt
